@@ -110,3 +110,63 @@ def rule_derived_cache_invalidate(ctx):
                     r.ok(f"{cls.name}.{cache}", sample={"cache": f"{cls.name}.{cache}", "derived from": sorted(stored), "writers": sorted({w.qualname for d in stored for w in writers.get(d, [])})[:4]})
     r.floor(n, 5, "lazily cached derived attributes")
     return r
+
+
+STRUCT_READS = {
+    "compute_contracted_inds", "_get_tids_from_inds", "_get_tids_from_tags", "_get_tids_from", "_inds_get", "_tids_get", "ind_map", "tensor_map",
+    "tag_map", "ind_size", "ind_sizes", "inds_size", "_get_neighbor_tids", "get_multibonds", "tids_are_connected", "select_tensors", "select",
+    "select_any", "select_all", "_select_tids", "outer_inds", "inner_inds", "_inner_inds", "_outer_inds", "num_tensors", "tensors",
+}
+
+
+def rule_stale_receiver(ctx):
+    r = RuleResult(
+        "stale-receiver",
+        "in a method that works on `tn = self if inplace else self.copy()`, once `tn` is being rewritten inside a loop the "
+        "structure of the network (index / tag / tensor maps, contracted-index computation, neighbourhood queries) must be "
+        "read from `tn`: reading it from `self` consults the untouched original under inplace=False — stale tids and index "
+        "sets, so the plain spelling no longer does what the in-place spelling does on a copy",
+    )
+    n = 0
+    for f in ctx.prog.all_functions(nested=False):
+        if f.is_alias or isinstance(f.node, ast.Lambda) or not f.module.name.startswith("quimb.tensor") or "inplace" not in f.params or f.cls is None:
+            continue
+        local = None
+        for a in f.node.body:
+            if isinstance(a, ast.Assign) and isinstance(a.value, ast.IfExp) and isinstance(a.value.test, ast.Name) and a.value.test.id == "inplace" \
+                    and isinstance(a.value.body, ast.Name) and a.value.body.id == "self" and isinstance(a.targets[0], ast.Name):
+                local = (a.targets[0].id, a.lineno)
+        if local is None:
+            continue
+        tn, line0 = local
+        loops = [lp for lp in ast.walk(f.node) if isinstance(lp, (ast.For, ast.While)) and lp.lineno > line0]
+        mutating = []
+        for lp in loops:
+            muts = [c for c in ast.walk(lp) if isinstance(c, ast.Call) and isinstance(c.func, ast.Attribute) and isinstance(c.func.value, ast.Name) and c.func.value.id == tn
+                    and (c.func.attr.endswith("_") or c.func.attr in ("pop_tensor", "add_tensor", "add", "_pop_tensor", "add_tensor_network", "_contract_between_tids",
+                                                                   "_compress_between_tids", "_canonize_between_tids", "_split_tensor_tid", "contract_ind", "replace_with_svd"))]
+            muts += [c for c in ast.walk(lp) if isinstance(c, ast.Call) and isinstance(c.func, ast.Attribute) and c.func.attr == "modify"]
+            if muts:
+                mutating.append(lp)
+        if not mutating:
+            continue
+        n += 1
+        bad = []
+        for lp in mutating:
+            for x in ast.walk(lp):
+                if isinstance(x, ast.Attribute) and isinstance(x.value, ast.Name) and x.value.id == "self" and x.attr in STRUCT_READS and isinstance(x.ctx, ast.Load):
+                    bad.append(x)
+        # nested generator functions defined in the method and driven by such a loop count too
+        seen = set()
+        if bad:
+            for x in bad:
+                if x.attr in seen:
+                    continue
+                seen.add(x.attr)
+                r.bad(Finding("stale-receiver", f.qualname,
+                              f"`self.{x.attr}` (line {x.lineno}) is read inside a loop that rewrites `{tn}`: under inplace=False this consults the original network, "
+                              f"whose tids and index sets no longer match `{tn}`", where=f"{f.module.relpath}:{x.lineno}", operand=x.attr))
+        else:
+            r.ok(f.qualname, sample={"method": f.qualname, "working copy": tn, "rewriting loops": len(mutating)}, nontrivial=False)
+    r.floor(n, 15, "methods rewriting a working copy inside a loop")
+    return r
